@@ -105,8 +105,11 @@ impl SyncOp {
                     timestamp: timestamp2,
                 },
             ) if uuid1 == uuid2 && property1 == property2 => {
-                // if the value is the same, there's no conflict
-                if value1 == value2 {
+                // identical modifications need nothing further.  Equal values with different
+                // timestamps still follow the rule below, so that the later timestamp stays on
+                // record: dropping both would let a third, intermediate modification win or lose
+                // depending on the order in which the replicas synchronize.
+                if value1 == value2 && timestamp1 == timestamp2 {
                     (None, None)
                 } else if timestamp1 < timestamp2 || (timestamp1 == timestamp2 && value1 < value2) {
                     // prefer the later modification or, if the modifications were made at the
